@@ -309,6 +309,9 @@ pub struct World {
     pub fs_quota: Option<usize>,
     pub fs_written: usize,
     /// crash point: the run is stopped when this many instructions have been executed
+    /// header lines of block statements (errors raised while one is evaluated are
+    /// attributed to (block statement, 0)); no statement events are produced for them
+    pub header_spans: Vec<Span>,
     pub kill_at: Option<u64>,
     pub killed: bool,
     pub fs_at_kill: Option<FsStore>,
@@ -355,6 +358,7 @@ impl World {
             stmt_counts: HashMap::new(),
             fs_quota: None,
             fs_written: 0,
+            header_spans: vec![],
             kill_at: None,
             killed: false,
             fs_at_kill: None,
@@ -388,6 +392,13 @@ impl World {
             }
         }
         best
+    }
+
+    pub fn header_at(&self, row: u32, col: u32) -> Option<StmtId> {
+        self.header_spans
+            .iter()
+            .find(|s| s.row == row && s.col_start <= col && col <= s.col_end)
+            .map(|s| s.stmt)
     }
 
     pub fn push_event(&mut self, kind: EventKind) {
